@@ -31,6 +31,10 @@ func runC18(r *an.Run) {
 	c18Predicate(r)
 	if m != nil {
 		everyParsedFileReachesApply(r, m, "R4-only-the-marker-predicate-skips-a-file")
+		// "all other files are processed exactly as without the flag": a skipped file leaves the iteration
+		// early, so nothing that outlives the iteration may have been touched before the skip — no variable
+		// created outside the per-file loop is written or handed to a call inside it
+		crossFileState(r, m, "R5-a-skipped-file-leaves-nothing-behind")
 	}
 }
 
